@@ -524,7 +524,12 @@ def run_mma(case, prob, rec):
         buf = io.StringIO()
         with contextlib.redirect_stdout(buf):
             out = orig(epsimin, low, upp, alfa, beta, P, Q, a0, a, b, c, d, x0=x0)
-        call["gave_up"] = "MMA Subsolver" in buf.getvalue()  # the solver's own message when it hits its iteration cap
+        msg = buf.getvalue()
+        call["gave_up"] = "MMA Subsolver" in msg  # the solver's own message when it hits its iteration cap
+        # barrier levels (epsi) at which it gave up: "MMA Subsolver: itt = 400, at epsi = 1.000e-06"
+        import re
+        eps_levels = [float(v) for v in re.findall(r"at epsi = ([0-9.eE+-]+)", msg)]
+        call["gave_up_epsi_max"] = max(eps_levels) if eps_levels else None
         call["ret"] = [np.array(o, dtype=float) for o in out]
         return out
 
@@ -704,7 +709,13 @@ def check_case(case, _debug=None):
             gave_up = bool(call.get("gave_up", False))
             bad("solution:kkt_residual:" + ("solver_hit_iteration_cap" if gave_up else "silent"),
                 f"call {ci}: own KKT residual {res:.3e} > 20*epsimin*sqrt(m+n)={20 * req_eps:.3e} (n={n}, m={m}, "
-                f"version {case['version']}, epsimin={case['epsimin']})", sig={"gave_up": gave_up})
+                f"version {case['version']}, epsimin={case['epsimin']}; gave up at epsi <= "
+                f"{call.get('gave_up_epsi_max')})",
+                sig={"gave_up": gave_up,
+                     # shape of the recorded known finding: the Newton loop stalls only at late barrier levels and the
+                     # returned point is still close to optimal (residual far below 1)
+                     "late_levels_only": bool(gave_up and (call.get("gave_up_epsi_max") or 1.0) <= 1e-4),
+                     "residual_below_1e-2": bool(res <= 1e-2)})
     # ---- end of run
     opt = oracle_optimum(prob)
     xF = X[-1] if X[-1].shape == (n,) else None
